@@ -299,6 +299,15 @@ COLS = ["a", "b", "c", "x", "y", "col1"]
 TABS = ["t", "u1"]
 
 
+M_E0, M_E1, M_Q0, M_Q1 = "\u27e6", "\u27e7", "\u27ea", "\u27eb"   # derivation markers (expression / query spans)
+
+
+def unmark(m: str) -> str:
+    for c in (M_E0, M_E1, M_Q0, M_Q1):
+        m = m.replace(c, "")
+    return m
+
+
 class Gen:
     """source text of the expression fragment, built level by level like the parser (so every parenthesisation,
     operator of every level, unary stack and negated range predicate is reachable)"""
@@ -319,8 +328,16 @@ class Gen:
         self.unary_ok = tab["base_unary"]
         self.quote_ok = tab["identStart"] in ('"', "`") and "Identifier" in plain and "Column" in plain
         self.known_defects = known_defects
+        self.scale = 1.0
+        self.mark = False
 
     def atom(self, depth):
+        return self.wrap(self.atom0(depth))
+
+    def wrap(self, s):
+        return M_E0 + s + M_E1 if self.mark else s
+
+    def atom0(self, depth):
         r = self.rng
         k = r.random()
         if depth > 0 and k < 0.16 and "Paren" in self.plain:
@@ -353,7 +370,7 @@ class Gen:
         s = self.atom(depth)
         if not self.unary_ok:
             return s
-        while r.random() < 0.18:
+        while r.random() < 0.18 * self.scale:
             k = r.random()
             if k < 0.45 and "Neg" in self.plain:
                 s = "- " + s
@@ -374,7 +391,7 @@ class Gen:
         if not self.range_ok:
             return s
         n = 0
-        while r.random() < (0.22 if n == 0 else 0.12) and depth > 0:
+        while r.random() < self.scale * (0.22 if n == 0 else 0.12) and depth > 0:
             n += 1
             neg = r.random() < 0.35
             k = r.random()
@@ -390,6 +407,9 @@ class Gen:
         return s
 
     def level(self, i, depth):
+        return self.wrap(self.level0(i, depth))
+
+    def level0(self, i, depth):
         """i indexes LEVELS (0 = DISJUNCTION … 7 = EXPONENT); 8 = unary"""
         if i >= 8:
             return self.unary(depth)
@@ -399,7 +419,7 @@ class Gen:
         sub = (lambda: self.rng_pred(depth)) if i == 3 else (lambda: self.level(i + 1, depth))
         s = sub()
         ops = self.level_ops[i]
-        p = [0.22, 0.22, 0.15, 0.12, 0.1, 0.18, 0.18, 0.12][i] if depth > 0 else 0.03
+        p = self.scale * ([0.22, 0.22, 0.15, 0.12, 0.1, 0.18, 0.18, 0.12][i] if depth > 0 else 0.03)
         while ops and r.random() < p:
             s += " " + r.choice(ops) + " " + sub()
             p *= 0.5
@@ -531,6 +551,251 @@ def correspond_time(chk: Check) -> None:
             chk.correspondence_broken("format_time", {"string": s, "mapping": m, "model": r, "impl": e})
 
 
+# ------------------------------------------------------------------------------------------ search (property oracle)
+TYPES = ["INT", "TEXT", "DECIMAL(10, 2)", "DATE", "BIGINT", "VARCHAR(10)", "TIMESTAMP"]
+KNOWN_FUNCS = ["COALESCE({0}, {1})", "ABS({0})", "LOWER({0})", "UPPER({0})", "LENGTH({0})", "ROUND({0}, 2)", "NULLIF({0}, {1})",
+               "CONCAT({0}, {1})", "MAX({0})", "MIN({0})", "SUM({0})", "COUNT(*)", "COUNT(DISTINCT {0})", "AVG({0})"]
+TIME_FUNCS = ["TIME_TO_STR({0}, '{f}')", "STR_TO_TIME({0}, '{f}')", "STR_TO_DATE({0}, '{f}')", "TO_CHAR({0}, '{f}')",
+              "DATE_FORMAT({0}, '{f}')", "STRFTIME({0}, '{f}')", "STRFTIME('{f}', {0})", "FORMAT_DATE('{f}', {0})",
+              "TO_DATE({0}, '{f}')", "STR_TO_UNIX({0}, '{f}')", "PARSE_TIMESTAMP('{f}', {0})", "TO_TIMESTAMP({0}, '{f}')"]
+TIME_FMTS = ["%Y-%m-%d", "%Y-%m-%d %H:%M:%S", "%d/%m/%y", "%H:%M", "yyyy-MM-dd", "YYYY-MM-DD HH24:MI:SS", "%Y%m%d", "%b %e, %Y",
+             "%-d %B", "%j", "dd.MM.yyyy", "%Y-%m-%dT%H:%M:%S.%f", "%%Y", "%y%", "HH:mm:ss"]
+
+
+class QGen:
+    """richer grammar for the oracle on the real code: SELECT with joins / subqueries / CTEs / set ops / windows / casts"""
+
+    def __init__(self, rng, base_tab):
+        self.rng = rng
+        self.g = Gen(rng, base_tab, "")
+        self.g.scale = 0.55
+        self.g.mark = True
+        self.g.atom_base = self.g.atom0
+        self.g.atom0 = self.atom
+
+    def atom(self, depth):
+        r = self.rng
+        k = r.random()
+        if depth > 0 and k < 0.07:
+            return "CAST(" + self.g.level(0, depth - 1) + " AS " + r.choice(TYPES) + ")"
+        if depth > 0 and k < 0.16:
+            f = r.choice(KNOWN_FUNCS)
+            return f.format(self.g.level(4, depth - 1), self.g.level(4, depth - 1))
+        if depth > 0 and k < 0.21:
+            return ("CASE WHEN " + self.g.level(0, depth - 1) + " THEN " + self.g.level(4, depth - 1)
+                    + (" ELSE " + self.g.level(4, depth - 1) if r.random() < 0.6 else "") + " END")
+        if depth > 0 and k < 0.25:
+            return r.choice(TIME_FUNCS).format(self.g.level(8, depth - 1), f=r.choice(TIME_FMTS))
+        if depth > 0 and k < 0.28:
+            return ("SUM(" + self.g.level(5, depth - 1) + ") OVER (PARTITION BY " + self.g.level(4, depth - 1)
+                    + (" ORDER BY " + self.order(depth - 1) if r.random() < 0.6 else "") + ")")
+        if depth > 1 and k < 0.31:
+            return "(" + self.select(depth - 2, single=True) + ")"
+        if depth > 0 and k < 0.33:
+            return "EXISTS (" + self.select(depth - 1) + ")"
+        return self.g.atom_base(depth)
+
+    def order(self, depth):
+        r = self.rng
+        s = self.g.level(r.choice([0, 4]), depth)
+        if r.random() < 0.4:
+            s += r.choice([" DESC", " ASC"])
+        if r.random() < 0.35:
+            s += r.choice([" NULLS FIRST", " NULLS LAST"])
+        return s
+
+    def source(self, depth):
+        r = self.rng
+        if depth > 0 and r.random() < 0.25:
+            return "(" + self.query(depth - 1) + ") AS " + r.choice(["s", "q1"])
+        t = r.choice(["t", "u1", "db.t"])
+        return t + (" AS " + r.choice(["x", "y"]) if r.random() < 0.4 else "")
+
+    def select(self, depth, single=False):
+        return M_Q0 + self.select0(depth, single) + M_Q1
+
+    def query(self, depth):
+        return M_Q0 + self.query0(depth) + M_Q1
+
+    def select0(self, depth, single=False):
+        r = self.rng
+        n = 1 if single else r.choice([1, 1, 2, 3])
+        items = []
+        for i in range(n):
+            it = self.g.level(0, depth)
+            if r.random() < 0.3:
+                it += " AS " + r.choice(["c1", "c2", "z"])
+            items.append(it)
+        s = "SELECT " + ("DISTINCT " if r.random() < 0.1 else "") + ", ".join(items)
+        if r.random() < 0.85:
+            s += " FROM " + self.source(depth)
+            while r.random() < 0.3:
+                s += " " + r.choice(["JOIN", "LEFT JOIN", "INNER JOIN", "CROSS JOIN", "FULL JOIN"]) + " " + self.source(depth)
+                if "CROSS" not in s.rsplit("JOIN", 1)[0][-7:]:
+                    s += " ON " + self.g.level(0, depth)
+            if r.random() < 0.45:
+                s += " WHERE " + self.g.level(0, depth)
+            if r.random() < 0.2:
+                s += " GROUP BY " + ", ".join(self.g.level(4, depth) for _ in range(r.choice([1, 2])))
+                if r.random() < 0.4:
+                    s += " HAVING " + self.g.level(0, depth)
+            if r.random() < 0.3:
+                s += " ORDER BY " + ", ".join(self.order(depth) for _ in range(r.choice([1, 1, 2])))
+            if r.random() < 0.2:
+                s += " LIMIT " + r.choice(["1", "10"])
+        return s
+
+    def query0(self, depth):
+        r = self.rng
+        s = self.select(depth)
+        if depth > 0 and r.random() < 0.15:
+            s += " " + r.choice(["UNION", "UNION ALL", "INTERSECT", "EXCEPT"]) + " " + self.select(depth - 1)
+        if depth > 0 and r.random() < 0.15:
+            s = "WITH cte AS (" + self.select(depth - 1) + ") " + s
+        return s
+
+
+def verdict(s: str, d: str):
+    """None if the property holds for source text s in dialect d (or s does not parse in d), else (kind, detail)"""
+    sqlglot, exp, *_ = sg()
+    from sqlglot.errors import SqlglotError
+
+    dd = d or None
+    try:
+        e = sqlglot.parse_one(s, dialect=dd)
+        s1 = e.sql(dialect=dd)
+    except SqlglotError:
+        return None
+    except Exception:  # noqa  (internal errors on the way in are C05's subject)
+        return None
+    try:
+        e1 = sqlglot.parse_one(s1, dialect=dd)
+    except Exception as ex:  # noqa
+        return "noparse", f"generated text does not parse again: {s1!r}: {type(ex).__name__}"
+    try:
+        s2 = e1.sql(dialect=dd)
+    except Exception as ex:  # noqa
+        return "noparse", f"re-parsed tree does not generate: {s1!r}: {type(ex).__name__}"
+    if s2 != s1:
+        return "text", f"not idempotent: {s1!r} -> {s2!r}"
+    if d == "" and e1 != e:
+        return "tree", f"base dialect: tree changed on re-parse of {s1!r}"
+    return None
+
+
+def skeleton(s: str, d: str) -> str:
+    try:
+        toks = real_tokens(d, s)
+    except Exception:  # noqa
+        return "untokenizable"
+    out = []
+    for ty, text in toks:
+        if ty in ("VAR", "IDENTIFIER"):
+            out.append("id")
+        elif ty == "NUMBER":
+            out.append("n")
+        elif ty == "STRING":
+            out.append("lit")
+        else:
+            out.append(text.upper())
+    return " ".join(out)
+
+
+def spans(m: str):
+    out, st = [], []
+    for i, ch in enumerate(m):
+        if ch in (M_E0, M_Q0):
+            st.append((ch, i))
+        elif ch in (M_E1, M_Q1) and st:
+            k, a = st.pop()
+            out.append(("E" if k == M_E0 else "Q", a, i))
+    return out
+
+
+def shrink(m: str, d: str, kind: str, deadline: float) -> str:
+    """grammar-directed delta debugging on the marked derivation of the SOURCE text (candidates stay inside the core
+    grammar): a span is replaced by one of its inner spans of the same kind or by the leaf `a`; a whole expression or
+    query span is promoted to the statement.  A candidate is kept when the oracle gives the same verdict kind."""
+    def ok(c):
+        v = verdict(unmark(c), d)
+        return v is not None and v[0] == kind
+
+    cur = m
+    progress = True
+    while progress and time.time() < deadline:
+        progress = False
+        sp = spans(cur)
+        cands = []
+        for k, a, b in sp:
+            cands.append((M_Q0 + "SELECT " + cur[a:b + 1] + M_Q1) if k == "E" else cur[a:b + 1])
+            for k2, a2, b2 in sp:
+                if k2 == k and a < a2 and b2 < b:
+                    cands.append(cur[:a] + cur[a2:b2 + 1] + cur[b + 1:])
+            if k == "E" and unmark(cur[a:b + 1]) not in ("a", "1"):
+                cands.append(cur[:a] + M_E0 + "a" + M_E1 + cur[b + 1:])
+                cands.append(cur[:a] + M_E0 + "1" + M_E1 + cur[b + 1:])
+        n0 = len(unmark(cur))
+        cands = sorted(set(c for c in cands if len(unmark(c)) < n0), key=lambda c: len(unmark(c)))
+        for c in cands:
+            if time.time() > deadline:
+                break
+            if ok(c):
+                cur = c
+                progress = True
+                break
+    return unmark(cur)
+
+
+SEARCH_TEMPLATES = [
+    "SELECT a NOT IN (1) < b", "SELECT a LIKE b NOT LIKE c", "SELECT a IS NOT NULL IS NULL", "SELECT ~ ~ a", "SELECT - - a",
+    "SELECT a FROM t ORDER BY x NOT LIKE y NULLS LAST", "SELECT (a - x) % b", "SELECT 1.5 IS NOT NULL IS NULL",
+    "SELECT a FROM t ORDER BY a IS NULL NULLS LAST", "SELECT a NOT BETWEEN 1 AND 2 = b", "SELECT NOT a = b", "SELECT a - -b",
+    "SELECT TIME_TO_STR(x, '%Y-%m-%d')", "SELECT STR_TO_TIME(x, '%Y%')", "SELECT a IS NULL IS NOT NULL",
+]
+
+
+def search(chk: Check, hints: list, tabs: dict, budget_s: float) -> None:
+    t0 = time.time()
+    rng = chk.rng
+    dialects = sorted(tabs)
+    qg = QGen(rng, tabs[""])
+    tried = found = 0
+    seen_keys: dict = {}
+
+    def consider(s, d):
+        nonlocal tried, found
+        tried += 1
+        m, s = s, unmark(s)
+        v = verdict(s, d)
+        chk.count("search:" + ("holds" if v is None else v[0]))
+        if v is None:
+            return
+        found += 1
+        small = shrink(m, d, v[0], time.time() + 10.0)
+        v2 = verdict(small, d) or v
+        key = v2[0] + ":" + skeleton(small, d)
+        seen_keys.setdefault(key, set()).add(d)
+        chk.report_violation(key, f"[{d or 'base'}] {v2[1]}", {"dialect": d, "sql": small, "original": s}, {"dialect": d})
+
+    for d, s in hints:
+        consider(s if s.upper().startswith(("SELECT", "WITH")) else "SELECT " + s, d)
+    for s in SEARCH_TEMPLATES:
+        for d in dialects:
+            consider(s, d)
+    while time.time() - t0 < budget_s and len(chk.violations) < 5:
+        depth = rng.choice([0, 1, 1, 2])
+        s = qg.query(depth) if rng.random() < 0.7 else "SELECT " + qg.g.level(0, depth)
+        chk.case(("search", s), nontrivial=True)
+        ds = [""] + rng.sample(dialects, 6)
+        for d in ds:
+            consider(s, d)
+            if time.time() - t0 > budget_s:
+                break
+    chk.search_info = {"ran": True, "budget_s": budget_s, "statement_dialect_pairs": tried, "violating": found,
+                       "distinct_minimised_skeletons": {k: sorted(v) for k, v in sorted(seen_keys.items())},
+                       "oracle": "s1 = gen(parse(s)) parses; gen(parse(s1)) == s1; base dialect: parse(s1) == parse(s)"}
+
+
 # ------------------------------------------------------------------------------------------ run
 def run(chk: Check) -> None:
     chk.trusted.append("C01: hand-written token-level model Model/{Expr,Parse,Gen,TimeFmt}.lean of the expression ladder of "
@@ -552,15 +817,21 @@ def run(chk: Check) -> None:
         if proved:
             raise
         chk.note(f"model driver unavailable ({e}); continuing with the search on the real code")
-    from vf.props import c01_search
-
-    budget = chk.pick(25, 300)
+    budget = chk.pick(30, 300)
     if chk.broken:
         budget *= 2
-    c01_search.search(chk, hints, tabs, budget)
+    search(chk, hints, tabs, budget)
 
 
 def replay(path: str) -> int:
-    from vf.props import c01_search
+    import sys
 
-    return c01_search.replay(path)
+    sys.path.insert(0, REPO)
+    rec = json.load(open(path))
+    r = rec.get("replay")
+    if not r:
+        print(json.dumps(rec, indent=1))
+        return 1
+    v = verdict(r["sql"], r["dialect"])
+    print("replay:", ("VIOLATES: " + v[1]) if v else "holds")
+    return 1 if v else 0
